@@ -332,7 +332,12 @@ impl PayloadWriter {
     /// The iterator will yield payloads in the order they were written, and the payloads will be cleared from the
     /// writer when the iterator is dropped.
     pub fn payloads(&mut self) -> Payloads<'_> {
-        Payloads { buf: &mut self.buf, start: 0, offsets: self.offsets.drain(..) }
+        Payloads {
+            buf: &mut self.buf,
+            start: 0,
+            offsets: self.offsets.drain(..),
+            with_length_prefix: self.with_length_prefix,
+        }
     }
 }
 
@@ -341,6 +346,7 @@ pub struct Payloads<'a> {
     buf: &'a mut Vec<u8>,
     start: usize,
     offsets: std::vec::Drain<'a, usize>,
+    with_length_prefix: bool,
 }
 
 impl<'a> Payloads<'a> {
@@ -365,6 +371,12 @@ impl<'a> Payloads<'a> {
 impl<'a> Drop for Payloads<'a> {
     fn drop(&mut self) {
         self.buf.clear();
+
+        // Clearing the buffer also removed the length prefix placeholder of the next payload, so write it again, just
+        // as `PayloadWriter::prepare_for_write` does.
+        if self.with_length_prefix {
+            self.buf.extend_from_slice(&[0, 0, 0, 0]);
+        }
     }
 }
 
